@@ -1180,7 +1180,7 @@ def run(ctx):
     global PACER
     PACER = Pacer(ctx.nshards)
     groups = {}
-    for i in ctx.cases(300, 6000):  # + 1/7 interleaved partners.  DESIGN asked 30 k; sessions are ~2.5x longer since the depth extension; 14 k (+2 k partners) took 1167 s at load 60-80 on the shared 16-core box, budget 600 s
+    for i in ctx.cases(300, 14000):  # + 1/7 interleaved partners (16 000 sessions); DESIGN asked 30 k, sessions are ~2.5x longer since the depth extension
         s = gen_session(ctx.case_rng(i), i, ctx.nshards)
         groups.setdefault(s["reactor"], []).append(s)
         if i % 7 == 3:  # a second session interleaved with this one on the same server
